@@ -9,7 +9,16 @@ props="$@"
 [ -z "$props" ] && props=$(ls selftest/mutants)
 fail=0
 for p in $props; do
-  for m in selftest/mutants/$p/*.patch; do
+  # hand-made mutants and reversed fix commits, plus the confirmed seeded changes this property's check caught
+  seeds=$(python3 - "$p" <<'PY'
+import json,glob,sys
+for f in sorted(glob.glob('/verif/seeded/*/meta.json')):
+    d=json.load(open(f))
+    if sys.argv[1] in (d.get('caught_by') or []):
+        print(f.replace('/verif/','').replace('meta.json','patch.diff'))
+PY
+)
+  for m in selftest/mutants/$p/*.patch $seeds; do
     [ -f "$m" ] || continue
     d=$(mktemp -d /tmp/kvmut.XXXXXX)
     rsync -a --exclude .git /repo/ "$d/"
@@ -19,7 +28,7 @@ for p in $props; do
     if ! (cd "$d" && go build ./... 2>/dev/null); then
       echo "SELFTEST-ERROR $m does not compile"; fail=1; rm -rf "$d"; continue
     fi
-    out=$(bin/kv check --property "$p" --repo "$d" --verif /verif --no-evidence --no-standins 2>&1)
+    out=$(bin/kv check --property "$p" --repo "$d" --verif /verif --no-evidence 2>&1)
     if echo "$out" | grep -q "^VIOLATION property=$p"; then
       echo "caught   $m: $(echo "$out" | grep -c '^VIOLATION') violation(s): $(echo "$out" | grep '^VIOLATION' | head -2 | sed 's/.*obligation=//' | tr '\n' ' ')"
     else
